@@ -2,6 +2,7 @@ package props
 
 import (
 	"fmt"
+	"os"
 	"go/token"
 	"go/types"
 	"strings"
@@ -109,6 +110,23 @@ func c17g2Backup(c *eng.Ctx) {
 		c.Violation(f, "prov{backup carries the archive read from storage}", f.Pos(), "the KeyData written into the backup never receives ArchivedKeys: a restored key would get an archive of empty slots", nil)
 	} else {
 		c17provAll(c, f, "backup carries the archive read from storage", la[0], pv)
+	}
+	if os.Getenv("OBSA_DBG17") != "" {
+		g := nfGCallOK(f, `^keysutil\.\(\*Policy\)\.LoadArchive$`)
+		for _, e := range g.Edges {
+			fmt.Println("DBG edge from b", e.From.Index, "succ", e.Succ)
+		}
+		for _, p := range g.Pass {
+			fmt.Println("DBG pass", eng.InstrStr(p), c.P.Pos(p.Pos()))
+		}
+		for _, st := range nfSites(f, `^keysutil\.\(\*Policy\)\.LoadArchive$`) {
+			for _, e := range st.Effs {
+				fmt.Println("DBG site", eng.InstrStr(st.At), "fwd", st.Fwd, "eff in", eng.FuncName(e.Fn), c.P.Pos(e.Call.In.Pos()))
+			}
+		}
+		for _, r := range eng.SuccessReturns(f, 1) {
+			fmt.Println("DBG sink b", r.Block().Index, eng.InstrStr(r))
+		}
 	}
 	c.Clause("R2", "C17.3")
 	c.Cut(f, "backup returned", eng.SuccessReturns(f, 1), nfGCallOK(f, `^keysutil\.\(\*Policy\)\.LoadArchive$`), nil)
